@@ -21,7 +21,7 @@ def run_pl(chk, prop):
     r = vplib.tlc("ProofList", "ProofList.nonvacuous.cfg", timeout=900, allow_fail=True)
     if "SomeAccept" not in r.invariant_violated:
         raise vplib.Machinery("vacuity check failed: acceptance not reachable in the model")
-    sels = [1, 2, 3, 4] if thorough else ([1, 2, 4] if prop == "C03" else [1, 3])
+    sels = [1, 2, 3, 4, 5] if thorough else ([1, 2, 4] if prop == "C03" else [1, 3, 5])
     cases = []
     for s in sels:
         g = vplib.tlc("ProofListGen", "ProofList.gen.%d.cfg" % s, workers=1, timeout=1500)
